@@ -724,7 +724,7 @@ func (cr *concRun) after(err error, in cop) {
 // RunConc decides C07 on one concurrent history.
 func RunConc(c *core.Ctx) {
 	r := c.R
-	backend := gen.Pick(r, []string{BBolt, BBolt, BadgerMem, BadgerMem, BadgerDisk, BBoltRaw})
+	backend := gen.Pick(r, []string{BBolt, BBolt, BadgerMem, BadgerMem, BadgerDisk, BBoltRaw, BadgerShip, BadgerRaw})
 	h, err := Open(c, backend, "")
 	if err != nil {
 		c.Violate("open-error", "opening %s failed: %v", backend, err)
@@ -759,6 +759,68 @@ func RunConc(c *core.Ctx) {
 	wg.Wait()
 	if h.MS != nil {
 		h.MS.SetPerturb(mon.Perturb{})
+	}
+	// three reads after everybody has finished: they are part of the history, so the FINAL state - every document,
+	// the count kept in the catalog, the index list - must be explained by the acknowledged operations too
+	finalReads := func(client int) (string, string, string) {
+		var snap, cnt, idx string
+		{
+			in := cop{Kind: "findall"}
+			call := cr.tick()
+			var docs []*document.Document
+			err := Do(func() (e error) { docs, e = h.DB.FindAll(query.NewQuery("k").Sort()); return })
+			out := cout{Class: classifyConc(err)}
+			if err == nil {
+				var b strings.Builder
+				for _, d := range docs {
+					uid, cd := docToC(d)
+					b.WriteString(docLine(uid, cd))
+				}
+				out.Snap = b.String()
+			}
+			snap = out.Class + "|" + out.Snap
+			cr.record(client, in, call, out)
+		}
+		{
+			in := cop{Kind: "count"}
+			call := cr.tick()
+			var n int
+			err := Do(func() (e error) { n, e = h.DB.Count(query.NewQuery("k")); return })
+			out := cout{Class: classifyConc(err), Snap: strconv.Itoa(n)}
+			cnt = out.Class + "|" + out.Snap
+			cr.record(client, in, call, out)
+		}
+		{
+			in := cop{Kind: "listindexes"}
+			call := cr.tick()
+			var fs []string
+			err := Do(func() error {
+				infos, e := h.DB.ListIndexes("k")
+				for _, x := range infos {
+					fs = append(fs, x.Field)
+				}
+				return e
+			})
+			sort.Strings(fs)
+			out := cout{Class: classifyConc(err), Snap: strings.Join(fs, ",")}
+			idx = out.Class + "|" + out.Snap
+			cr.record(client, in, call, out)
+		}
+		return snap, cnt, idx
+	}
+	snap0, cnt0, idx0 := finalReads(nclients)
+	if h.Persistent() && r.Bool() {
+		// and the same three answers after Close and Open: what was acknowledged survives
+		if err := h.Reopen(c); err != nil {
+			c.Violate("reopen:error", "close/reopen after a concurrent history failed: %v", err)
+			return
+		}
+		snap1, cnt1, idx1 := finalReads(nclients + 1)
+		if snap1 != snap0 || cnt1 != cnt0 || idx1 != idx0 {
+			cr.logHistory()
+			c.Violate("conc:reopen-changed-state", "after Close and Open on %s the database answers differently than just before: Count %s -> %s, indexes %s -> %s, documents equal: %v", backend, cnt0, cnt1, idx0, idx1, snap0 == snap1)
+			return
+		}
 	}
 	if v := cr.invErr.Load(); v != nil {
 		msg := v.(string)
